@@ -8,7 +8,7 @@ _EDIT_ASSUME = [
 
 SPECS = {
     'C01': {
-        'engine': 'editsim', 'mod': 'sim.engines', 'quick': 24000, 'thorough': 360000, 'level': 'exploration',
+        'engine': 'editsim', 'mod': 'sim.engines', 'quick': 36000, 'thorough': 400000, 'level': 'exploration',
         'rule': 'one evaluation = one seeded run: generated program (corpus picks + layout perturbations) and a history '
                 'of 1-12 structured edits, ast.parse(src)==live tree (with positions) asserted after every edit that '
                 'returned; non-trivial = at least one edit returned normally; distinct = distinct event-log digest '
@@ -38,7 +38,7 @@ SPECS = {
         'assumptions': _EDIT_ASSUME + ['reference = pfst itself on a freshly parsed tree (the property is relational)'],
     },
     'C03': {
-        'engine': 'editsim', 'mod': 'sim.engines', 'quick': 12000, 'thorough': 180000, 'level': 'exploration',
+        'engine': 'editsim', 'mod': 'sim.engines', 'quick': 20000, 'thorough': 240000, 'level': 'exploration',
         'rule': 'one evaluation = one seeded run: program + history of 1-6 VETTED container requests (slice put/delete, '
                 'one-element put/delete, insert/append/prepend, optional-field put/delete) on ~45 (node type, field) '
                 'container kinds with bounds in [-len-2, len+2] U {end}; the expected tree is computed on the pure AST '
@@ -59,7 +59,7 @@ SPECS = {
         'assumptions': _EDIT_ASSUME + ['the allowed window is an upper bound re-implemented from the trivia documentation: sensitivity is lost where it is too wide, never soundness'],
     },
     'C07': {
-        'engine': 'editsim', 'mod': 'sim.engines', 'quick': 10000, 'thorough': 150000, 'level': 'exploration',
+        'engine': 'editsim', 'mod': 'sim.engines', 'quick': 16000, 'thorough': 200000, 'level': 'exploration',
         'rule': 'one evaluation = one seeded run: program (60 % unique-token) + history of 2-8 ops mixing edits with read ops '
                 '(copy/get/get_slice/view.copy with trivia/pars/norm/docstr options) and cut-vs-copy+delete differentials on '
                 'forked trees; after each read: source tree (src, dump+positions, query answers) unchanged, returned tree is '
@@ -69,7 +69,7 @@ SPECS = {
         'assumptions': _EDIT_ASSUME + ['structural equality ignores expression contexts and whitespace after newlines inside string constants (documented docstring re-indentation)'],
     },
     'C08': {
-        'engine': 'editsim', 'mod': 'sim.engines', 'quick': 16000, 'thorough': 240000, 'level': 'exploration',
+        'engine': 'editsim', 'mod': 'sim.engines', 'quick': 32000, 'thorough': 320000, 'level': 'exploration',
         'rule': 'one evaluation = one seeded run: program + history of 1-6 composite ops (cut node/slice ... put back at the '
                 'same place with cache-warming queries in between, repeated up to 4x; replace(node, own copy | own pure AST | '
                 'own source | own_src()); own_src() re-parsed; put_docstr->get_docstr and put_line_comment->get_line_comment '
@@ -79,7 +79,7 @@ SPECS = {
         'assumptions': _EDIT_ASSUME + ['refusals documented as not implemented are not violations', 'comment round trip asserted only for single-line texts without leading/trailing whitespace'],
     },
     'C10': {
-        'engine': 'editsim', 'mod': 'sim.engines', 'quick': 20000, 'thorough': 300000, 'level': 'exploration',
+        'engine': 'editsim', 'mod': 'sim.engines', 'quick': 40000, 'thorough': 400000, 'level': 'exploration',
         'rule': 'one evaluation = one seeded run: program + history of 1-4 raw requests: put_src(text, rectangle, reparse) with '
                 'rectangles on/off token and node boundaries and replacement text from a token soup (valid and invalid = fault '
                 'R1), raw node puts (raw=True / raw=auto = fault P2) and reparse(); oracle: raise => (src, dump+positions, '
@@ -89,7 +89,7 @@ SPECS = {
         'assumptions': _EDIT_ASSUME + ['violations whose request satisfies a listed input predicate (rectangle touches a statement boundary / result changes the statement skeleton / whole source) are counted under the known findings'],
     },
     'C11': {
-        'engine': 'editsim', 'mod': 'sim.engines', 'quick': 20000, 'thorough': 300000, 'level': 'exploration',
+        'engine': 'editsim', 'mod': 'sim.engines', 'quick': 30000, 'thorough': 300000, 'level': 'exploration',
         'rule': 'one evaluation = one seeded run: program + history of 1-8 ops: trivia-only put_src(action=offset) edits at '
                 'gaps between tokens found by tokenize (spaces, newline+indent and comment lines inside brackets, backslash '
                 'continuations outside), called on the innermost node that strictly contains the spot (computed on the pure '
@@ -99,7 +99,7 @@ SPECS = {
         'assumptions': _EDIT_ASSUME + ['sampled gaps, not enumerated'],
     },
     'C13': {
-        'engine': 'reconsim', 'mod': 'sim.engines', 'quick': 12000, 'thorough': 180000, 'level': 'exploration',
+        'engine': 'reconsim', 'mod': 'sim.engines', 'quick': 20000, 'thorough': 240000, 'level': 'exploration',
         'rule': 'one evaluation = one seeded run: program, 1-3 rounds of mark() + 0-6 pure-AST mutations applied directly to '
                 'root.a (replace by brand-new nodes, insert, delete, swap, duplicate by copy / by identity, move, graft from '
                 'another FST tree unmodified / modified, change primitive values; each kept only if ast.unparse/ast.parse shows '
@@ -111,7 +111,7 @@ SPECS = {
         'real_vs_stub': 'all pfst code ran real; harness-side wrapper: Reconcile.put_node (class attribute) for fault P1; stubs: none',
     },
     'C15': {
-        'engine': 'walksim', 'mod': 'sim.engines', 'quick': 24000, 'thorough': 360000, 'level': 'exploration',
+        'engine': 'walksim', 'mod': 'sim.engines', 'quick': 48000, 'thorough': 480000, 'level': 'exploration',
         'timeout_is_violation': True,
         'rule': 'one evaluation = one seeded schedule: a tree, walk()/search() parameters (all, on, back, recurse, scope, self_, '
                 'start node) and at every yield a scheduler action drawn from {nothing, replace/remove the yielded node, '
@@ -136,7 +136,7 @@ SPECS = {
                         'references are computed by pfst itself in a forked child (relational property)'],
     },
     'C18': {
-        'engine': 'subsim', 'mod': 'sim.engines', 'quick': 16000, 'thorough': 240000, 'level': 'exploration',
+        'engine': 'subsim', 'mod': 'sim.engines', 'quick': 32000, 'thorough': 320000, 'level': 'exploration',
         'rule': 'one evaluation = one seeded subn() request: program (50 % unique-token; no match statements / f-strings / type '
                 'parameters) x pattern family (10: Name/Call/BinOp/Attribute in Load context, BinOp with two captures, Return, '
                 'Expr(Call), Pass, If, Assign) x template (wrap, identity, double slot, swap, block wrappers) x nested x count '
